@@ -130,19 +130,21 @@ Qed.
 
 (* get_parameterized_layer_circuit: for every integer layer id the instructions of the model's layer circuit, with the
    REPAIRED prefix layer{layer_id:06d}_ (legacy = false) *)
-Lemma link_get_parameterized_layer_circuit : forall V l layer_id,
+(* Hypothesis 0 <= layer_id: layer ids are positions in the layers tuple.  For a negative id CPython's {layer_id:06d}
+   counts the sign towards the width ("-00042"), which Names.v's pad6 does not model (C04Aux.pad6_py does). *)
+Lemma link_get_parameterized_layer_circuit : forall V l layer_id, 0 <= layer_id ->
   gen_get_parameterized_layer_circuit V l layer_id
   = Ok (flat_map (gate_instrs (V := V) (layer_prefix false layer_id)) (l_gates l)).
 Proof.
-  intros V l id. unfold gen_get_parameterized_layer_circuit. cbv zeta.
-  rewrite (apply_loop V _ (l_gates l)). cbn [bind]. rewrite pyname_layer_prefix. reflexivity.
+  intros V l id Hid. unfold gen_get_parameterized_layer_circuit. cbv zeta.
+  rewrite (apply_loop V _ (l_gates l)). cbn [bind]. rewrite (pyname_layer_prefix _ Hid). reflexivity.
 Qed.
 Print Assumptions link_get_parameterized_layer_circuit.
 
 (* ... which for the layer ids that occur (positions in the layers tuple) is Circuit.layer_circuit *)
 Lemma link_get_parameterized_layer_circuit_model : forall V l (k : nat),
   gen_get_parameterized_layer_circuit V l (Z.of_nat k) = Ok (layer_circuit false k l).
-Proof. intros. apply link_get_parameterized_layer_circuit. Qed.
+Proof. intros. apply link_get_parameterized_layer_circuit. apply Nat2Z.is_nonneg. Qed.
 Print Assumptions link_get_parameterized_layer_circuit_model.
 
 Lemma link_get_parameterized_layer_gate : forall V l (k : nat),
